@@ -146,8 +146,10 @@ func (m *c11Mon) after(h *H, s *step) {
 	if s.R.FaultFired() {
 		return
 	}
-	if !w.IsLoginRedirect(s.R) || s.NewID == "" || s.NewID == sid {
-		c.Violation("refresh-failure-no-relogin", "step #%d: after a failed refresh the answer is %v, not a login redirect with a fresh session id", s.N, s.R)
+	// "the browser must log in again": the answer is a denial; when it is the login redirect itself it starts a new
+	// session (how a non-navigation request is told to log in is the service's business)
+	if w.IsLoginRedirect(s.R) && (s.NewID == "" || s.NewID == sid) {
+		c.Violation("refresh-failure-no-relogin", "step #%d: after a failed refresh the login redirect %v does not start a fresh session", s.N, s.R)
 	}
 	if t, _ := w.Store.Inner.GetTokenResponse(context.Background(), sid); t != nil {
 		c.Violation("stale-session-survives-failed-refresh", "step #%d: tokens remain under session %s after a failed refresh", s.N, short(sid, 12))
@@ -249,10 +251,10 @@ func c11Prop(c *sim.Case) {
 			b, tag := c11Behaviours(c)
 			tags = append(tags, tag)
 			h.exec(&op{K: "idp", Beh: b, BehTag: tag})
-			h.exec(&op{K: "nav", B: 0, Target: "/a"})
+			h.exec(&op{K: "nav", B: 0, Target: "/a", Method: []string{"", "", "POST", "PUT", "DELETE", "PATCH"}[sim.Pick(c, "method", 6)]})
 			h.w.IdP.Next = nil // an unused scripted answer must not leak into a later exchange
 		case 1:
-			h.exec(&op{K: "nav", B: 0, Target: genTarget(c, "t")})
+			h.exec(&op{K: "nav", B: 0, Target: genTarget(c, "t"), Method: []string{"", "", "POST", "HEAD"}[sim.Pick(c, "method2", 4)]})
 		case 2:
 			h.exec(&op{K: "login", B: 0, Target: "/b"})
 		case 3:
